@@ -469,6 +469,8 @@ func ruleTransferApp(w *World, r *Report, id string, app appDesc) {
 	k.packetDataRule(id+".send", app)
 	k.recvRule(id, app)
 	k.refundRule(id, app)
+	k.traceRule(id+".trace", app)
+	k.ackOnceRule(id + ".ackonce")
 	if id == "C04" {
 		k.callbackChainRule("C04.ack.source", "Acknowledgement", "OnAcknowledgementPacket", "GetSourceChain")
 		k.callbackChainRule("C04.recv.dest", "RecvPacket", "OnRecvPacket", "GetDestChain")
@@ -611,7 +613,12 @@ func ruleC06(w *World, r *Report) {
 		k.refundRule("C06", app)
 		k.packetDataRule("C06.send", app)
 		k.namespaceRule("C06.delim", app)
+		k.traceRule("C06.trace", app)
+		// a failed receive (error acknowledgement, refund on the source) must not leave vouchers
+		// behind: everything that can fail precedes the first token operation (shared with C19)
+		k.recvRule("C06", app)
 	}
+	k.ackOnceRule("C06.ackonce")
 	// sibling agreement of the path helpers
 	nft, mt := apps[0], apps[1]
 	replN := map[string]string{"apps/nft_transfer": "APP", `const("nft")`: "const(PFX)", "NonFungibleTokenPacketData": "PacketData"}
